@@ -29,6 +29,7 @@ MUTABLE_TAGS = ("SSK", "SSKRO", "MDMF", "MDMFRO")
 ERRS = {"NoneType": "none", "BadURIError": "BadURI", "MustBeDeepImmutableError": "MustBeDeepImmutable",
         "MustBeReadonlyError": "MustBeReadonly", "MustNotBeUnknownRWError": "MustNotBeUnknownRW"}
 PREFIXES = (b"", b"ro.", b"imm.")
+UNKNOWN_RW = b"x-future:abc"
 
 
 def file_fields(c):
